@@ -94,3 +94,105 @@ Proof.
   - unfold format_matches_version. cbn [s_body s_version body_magics flat_map snd app]. rewrite !app_nil_r.
     rewrite <- MV. exact (created_views_magics orc clock reqs codec mg ms MG C CD).
 Qed.
+
+(* ------------------------------------------------------------------ the same for a LIST of payloads (one per
+   topic-partition in the Producer, producer.py:403-411; the theorem does not need the keys to be distinct: grouping
+   is done on the records the payloads were built from) *)
+Record built := mkBuilt { b_topic : text; b_partition : Z; b_clock : nat -> Z; b_reqs : list send_request;
+                          b_msgs : list message }.
+Definition payload_of (b : built) : produce_payload := mkProduce (b_topic b) (b_partition b) (b_msgs b).
+Definition built_ok (orc : oracle) (codec mg : Z) (b : built) : Prop :=
+  create_message_set orc (b_clock b) (b_reqs b) codec mg = Ok (b_msgs b) /\
+  forallb request_ok (b_reqs b) = true /\ present (b_topic b) = true.
+
+Definition map_vals {K A B} (h : A -> B) (l : list (K * A)) : list (K * B) := map (fun kv => (fst kv, h (snd kv))) l.
+
+Lemma aset_map {K A B} (eqb : K -> K -> bool) (h : A -> B) k (f : option A -> A) (f' : option B -> B) l :
+  (forall o, h (f o) = f' (option_map h o)) ->
+  map_vals h (aset eqb k f l) = aset eqb k f' (map_vals h l).
+Proof.
+  intros Hf. induction l as [|[k' v'] r IH]; cbn [aset map_vals map fst snd].
+  - rewrite (Hf None). reflexivity.
+  - destruct (eqb k' k); cbn [map fst snd].
+    + rewrite (Hf (Some v')). reflexivity.
+    + unfold map_vals in IH. rewrite IH. reflexivity.
+Qed.
+
+Lemma group_map_payloads bs :
+  group_by_topic_and_partition pr_topic pr_partition (map payload_of bs)
+  = map_vals (map_vals payload_of) (group_by_topic_and_partition b_topic b_partition bs).
+Proof.
+  induction bs as [|x bs IH] using rev_ind; [reflexivity|].
+  rewrite map_app. cbn [map]. rewrite !group_snoc, IH. unfold group_step. cbn [payload_of pr_topic pr_partition].
+  symmetry. apply aset_map. intros o.
+  rewrite (aset_map Z.eqb payload_of (b_partition x) (fun _ => x) (fun _ => payload_of x)); [|reflexivity].
+  destruct o; reflexivity.
+Qed.
+
+Definition built_views (codec mg : Z) (g : list (text * list (Z * built))) : list (list Z * list (Z * list smsg)) :=
+  map (fun tp => (abytes (fst tp),
+                  map (fun pb => (fst pb, created_views (b_clock (snd pb)) (b_reqs (snd pb)) codec mg (b_msgs (snd pb))))
+                      (snd tp))) g.
+
+Lemma built_parts_view orc eclock codec mg : oracle_gzip_ok orc ->
+  codec = CODEC_NONE \/ codec = CODEC_GZIP -> mg = 0 \/ mg = 1 ->
+  forall inner k, (forall pb, In pb inner -> built_ok orc codec mg (snd pb)) ->
+  parts_view orc eclock k (map_vals payload_of inner)
+    (map (fun pb => (fst pb, created_views (b_clock (snd pb)) (b_reqs (snd pb)) codec mg (b_msgs (snd pb)))) inner).
+Proof.
+  intros OR CD MG. induction inner as [|[p b] r IH]; intros k H; cbn [map_vals map fst snd]; constructor.
+  - destruct (H (p, b) (or_introl eq_refl)) as (C & RQ & _). cbn [payload_of pr_messages snd] in *.
+    exact (proj1 (created_set_view orc (b_clock b) (b_reqs b) codec mg (b_msgs b) eclock k OR C RQ CD MG)).
+  - apply IH. intros pb I. apply H. right. exact I.
+Qed.
+
+Lemma built_topics_view orc eclock codec mg : oracle_gzip_ok orc ->
+  codec = CODEC_NONE \/ codec = CODEC_GZIP -> mg = 0 \/ mg = 1 ->
+  forall g k, (forall tp pb, In tp g -> In pb (snd tp) -> built_ok orc codec mg (snd pb)) ->
+  topics_view orc eclock k (map_vals (map_vals payload_of) g) (built_views codec mg g).
+Proof.
+  intros OR CD MG. induction g as [|[t inner] r IH]; intros k H; cbn [map_vals built_views map fst snd]; constructor.
+  - apply built_parts_view; auto. intros pb I. apply (H (t, inner) pb); [left; reflexivity|exact I].
+  - apply IH. intros tp pb I1 I2. apply (H tp pb); [right; exact I1|exact I2].
+Qed.
+
+Lemma built_views_magics orc codec mg : mg = 0 \/ mg = 1 -> codec = CODEC_NONE \/ codec = CODEC_GZIP ->
+  forall g, (forall tp pb, In tp g -> In pb (snd tp) -> built_ok orc codec mg (snd pb)) ->
+  forallb (fun x => x =? mg)
+          (flat_map (fun t => flat_map (fun pm => flat_map smsg_magics (snd pm)) (snd t)) (built_views codec mg g)) = true.
+Proof.
+  intros MG CD g H. apply forallb_forall. intros x I.
+  apply in_flat_map in I. destruct I as (tv & Itv & I). unfold built_views in Itv. apply in_map_iff in Itv.
+  destruct Itv as (tp & <- & Itp). cbn [snd] in I.
+  apply in_flat_map in I. destruct I as (pv & Ipv & I). apply in_map_iff in Ipv. destruct Ipv as (pb & <- & Ipb). cbn [snd] in I.
+  destruct (H tp pb Itp Ipb) as (C & _ & _).
+  pose proof (created_views_magics orc _ _ codec mg _ MG C CD) as M. rewrite forallb_forall in M. exact (M x I).
+Qed.
+
+Theorem producer_batch_conforms orc eclock cid corr bs codec acks timeout st pv mg w :
+  oracle_gzip_ok orc ->
+  resolved_ok st -> version_for st PRODUCE_KEY = Some pv -> producer_magic st = Some mg ->
+  codec = CODEC_NONE \/ codec = CODEC_GZIP ->
+  Forall (built_ok orc codec mg) bs ->
+  encode_produce_request eclock cid corr (map payload_of bs) acks timeout pv = Ok w ->
+  exists r, parse_request orc w = Some r /\
+            r = mkSreq 0 (produce_header_version pv) corr (Some cid)
+                       (SProduce acks timeout (built_views codec mg (group_by_topic_and_partition b_topic b_partition bs))) /\
+            format_matches_version r = true.
+Proof.
+  intros OR RS VP PM CD OKs E.
+  destruct (resolved_versions st RS) as (pv' & mg' & VP' & PM' & V0 & MG & MV).
+  rewrite VP in VP'. injection VP' as <-. rewrite PM in PM'. injection PM' as <-.
+  rewrite Forall_forall in OKs.
+  assert (HG : forall tp pb, In tp (group_by_topic_and_partition b_topic b_partition bs) -> In pb (snd tp) ->
+                             built_ok orc codec mg (snd pb)).
+  { intros [t inner] [p b] I1 I2. cbn [snd] in *.
+    destruct (group_sound b_topic b_partition bs t inner p b I1 I2) as (Ib & _ & _). now apply OKs. }
+  eexists. split; [|split; [reflexivity|]].
+  - eapply produce_parses; [exact E| |exact V0|].
+    + unfold topics_present. apply forallb_forall. intros p I. apply in_map_iff in I. destruct I as (b & <- & Ib).
+      cbn [payload_of pr_topic]. exact (proj2 (proj2 (OKs b Ib))).
+    + rewrite group_map_payloads. apply built_topics_view; auto.
+  - unfold format_matches_version. cbn [s_body s_version body_magics]. rewrite <- MV.
+    exact (built_views_magics orc codec mg MG CD _ HG).
+Qed.
